@@ -15,7 +15,7 @@ CHECKS = {
              'any length and any target list (run1_ext/run2_ext); the table action is proved to be conjugation by the '
              'documented unitary (exact Z[sqrt2,i] arithmetic) and a phase-exact homomorphism (conj1_hom/conj2_hom); product '
              'phase table = true power of i (hmul_log_i_is_ph). Tie H: after/before/products/commutation/order/text of the '
-             'real PauliStringRef<64/128/256> are diffed against the extracted model incl. word-boundary positions.',
+             'real PauliStringRef<64/128/256> are diffed against the extracted model incl. word-boundary positions. The refusal conditions at measurements, resets and MPP are regenerated from source and proved to be anticommutation with the documented basis (GenProofs_Avoid).',
         note=TB + ' Refusal rules at measurements/resets/noise and the comparison order are differential tests against a '
                   'transcription of the documented rule, not theorems. undo with several target pairs in order is covered '
                   'by correspondence only.',
@@ -29,7 +29,7 @@ CHECKS = {
              'collapse_refines_measure, spec_measure_group_char, eval_hom, central_is_scalar); (O) every record, peek/is_deterministic/'
              'expectation answer and measure-after-peek of the real simulator (3 widths, index straddling 64/128/256, all gates, '
              'feedback, MPP/SPP, REPEAT, `!`) must be a solution of the specification\'s symbolic sign forms, decided by the verified '
-             'GF(2) solver (sound+complete); free measurements must take both values. Reference samples through the loop-folding path (ReferenceSampleTree, REPEAT >= 10 with the record replayed for skipped iterations, feedback looking back across the loop, pre-loop results that differ from the periodic content) must solve the forms of the unrolled circuit. TableauSimulator measurement / reset routines, collapse wrappers and pair-measurement segments are regenerated from source (GenProofs_TabMeas); the hand model coq/Mpp.v of gate_decomposition.cc (MPP, SPP, pair segments, reversed segments) is extracted and run against the real functions on the same instructions, and MppProofs proves that every flushed block measures each of its (pairwise disjoint) products with the right sign, for products of any size.',
+             'GF(2) solver (sound+complete); free measurements must take both values. Reference samples through the loop-folding path (ReferenceSampleTree, REPEAT >= 10 with the record replayed for skipped iterations, feedback looking back across the loop, pre-loop results that differ from the periodic content) must solve the forms of the unrolled circuit. TableauSimulator measurement / reset routines, collapse wrappers and pair-measurement segments are regenerated from source (GenProofs_TabMeas); the hand model coq/Mpp.v of gate_decomposition.cc (MPP, SPP, pair segments, reversed segments) is extracted and run against the real functions on the same instructions, and MppProofs proves that every flushed block measures each of its (pairwise disjoint) products with the right sign, for products of any size. Whole runs: Run.run_refines (any sequence of Clifford steps and Hermitian measurements refines the predicate semantics), TableGood (every table unitary is such a step), ConjMeas (measurement through a basis change), ResetRun.',
         note=TB + ' Whole runs are proved to refine the predicate-level semantics at the level of maps on Paulis (Run.run_refines: any sequence '
                   'of Clifford maps and Hermitian measurements, any coins); that each table gate lifts to such a map on XZ-form strings '
                   'and that the C++ collapse_qubit_z is the modelled collapse Clifford are tied by the generated per-gate obligations and '
@@ -47,7 +47,7 @@ CHECKS = {
              'reference sample). (O) every bulk shot is checked against the specification with the verified solver; 4096-shot runs '
              'check unbiasedness at 7 sigma and uniformity over the 2^r reachable records; outcome-deterministic circuits must give '
              'bytes identical to the documentation encoder through in-memory and forced-streaming paths, 6 formats, shot counts across '
-             'batch boundaries, 3 widths, tableau vs tree reference samples.',
+             'batch boundaries, 3 widths, tableau vs tree reference samples. FrameRun.framed_run_is_legal: every frame-shifted copy of a legal reference run is a legal run, for circuits of any length; pair-measurement segments regenerated from source.',
         note=TB + ' RNG quality and surjectivity of frame randomisation are tested (statistics / distinct-record counts), not proved; '
                   'the induction over whole circuits is not assembled in Coq.',
         design='§4 C02'),
@@ -85,7 +85,7 @@ CHECKS = {
              'implementation\'s model must define the same joint distribution, compared through E[(-1)^(s.x)] on all unit vectors, '
              'pairs and random vectors (exact to 1e-7; with approximate_disjoint_errors within the first-order bound 2*P^2 per '
              'approximated channel); rejections (non-deterministic detector/observable, channels needing the approximation, '
-             'over-mixing) must match the specification; options fold_loops / allow_gauge_detectors / approximate_disjoint_errors. Rejection clause: a non-deterministic observable (also one sharing its anticommuting set with a gauge detector) must be refused whether or not gauge detectors are allowed.',
+             'over-mixing) must match the specification; options fold_loops / allow_gauge_detectors / approximate_disjoint_errors. Rejection clause: a non-deterministic observable (also one sharing its anticommuting set with a gauge detector) must be refused whether or not gauge detectors are allowed. The probability folding of add_error is translated to Q and proved equal to the merge rule by ring (GenProofs_AddError); MPP / SPP entry points of the backward classes are tied from source and MppRev proves the reversed target list is the reversed products with the same content.',
         note=TB + ' The analyzer\'s bookkeeping (add_error_combinations, gauge removal, unreversed) is not modelled in Coq; pair and product measurements enter the '
                   'adjointness theorem only through their decomposition. Distribution equality is '
                   'a randomized identity test over test vectors.',
@@ -115,7 +115,7 @@ CHECKS = {
              '(counts, max lookback, compute_stats, final coordinate shift, final qubit coordinates incl. repeated qubits, detector '
              'coordinates, total detector shift) against an interpreter executing the unrolled stream on random nested programs; '
              'histories of 3-14 mutating API calls (+, +=, *, *=, insert, insert/append repeat block with tags, append text, slices, '
-             'copy, assign, clear, destroy, self operands) for circuits and models under ASan, comparing flattened streams.',
+             'copy, assign, clear, destroy, self operands) for circuits and models under ASan, comparing flattened streams. Sparse multi-index detector-coordinate queries are compared with the unrolled stream; compute_stats fields are compared with the Counts model for huge repeat counts.',
         note=TB + ' Ownership of spans is checked on the real heap by ASan (no Coq ownership model); coordinate arithmetic is compared '
                   'on small integers; the expected flattened text is canonicalised by the implementation\'s own parser.',
         design='§4 C15'),
@@ -151,7 +151,7 @@ CHECKS = {
              'flatten_is_naive_execution, fibers_equal. Tie H/O: for random models every shot in DemSampler<W>\'s buffers and in the '
              'files written by `stim sample_dem` (all det/obs/err formats, shot counts across stripe boundaries) is recomputed from the '
              'recorded error bits and the absolute errors of the extracted DemFlat model; replay through every input format must '
-             'reproduce the bits; p=0/1 errors never/always fire; firing frequencies and pairwise independence at 7 sigma.',
+             'reproduce the bits; p=0/1 errors never/always fire; firing frequencies and pairwise independence at 7 sigma. The resample loop is regenerated from source (GenProofs_DemSampler).',
         note=TB + ' RNG quality and exact probabilities (float rounding of p) are tested statistically, not proved (C05 covers the '
                   'sampling primitives).',
         design='§4 C16'),
@@ -164,7 +164,7 @@ CHECKS = {
              'cancelling duplicate targets, separators, zero-probability errors, 70 observables, repeat/shift) the graphlike search and '
              'the untruncated hypergraph search must return valid error sets of exactly the exhaustive minimum size and fail only when '
              'none exists; truncated searches must return valid sets; the unweighted WCNF must be well formed and have the exhaustive '
-             'optimum equal to the minimum number of errors.',
+             'optimum equal to the minimum number of errors. Graph construction of the graphlike search is regenerated from source and GraphEdges.collect_is_symptom proves the held detectors are the component\'s symptom however it is written.',
         note=TB + ' Graph::from_dem and the hypergraph search are not modelled in Coq; the instantiation of bfs_nearest with the '
                   'search\'s successor function is not assembled; the weighted WCNF is only checked for well-formedness. With '
                   'ignore_ungraphlike_errors the implementation skips errors that carry a suggested decomposition; that reading is '
@@ -178,7 +178,7 @@ CHECKS = {
              'coin part (proved to mean the same value under every coin assignment); the text must equal the canonical print of its own '
              'parse; detector/observable/measurement counts must match the closed forms in (d, rounds); for repetition and surface '
              'memory tasks with all four noise parameters on, the shortest graphlike undetectable logical error must have exactly d '
-             'errors; invalid parameter combinations must be rejected.',
+             'errors; invalid parameter combinations must be rejected. The documented parameter ranges are checked as a grid (distance, rounds, probabilities).',
         note=TB + ' The generators are not transcribed into Gallina: the claim is per grid point (exhaustive over the stated grid), not '
                   'for all distances and round counts; the distance uses the implementation\'s graphlike search (validated by C17).',
         design='§4 C19'),
@@ -191,7 +191,7 @@ CHECKS = {
              'do_square_transpose, slice_maj, concat_major, resize, read_across_majors, square_mat_mul, inverse_assuming_lower_triangular '
              'and the simd_bits operators/popcount/countr_zero/intersects/subset/truncated copy/clear_bits_past/invert/resize/masked '
              'randomize against bit-by-bit definitions for W in {64,128,256} on shapes covering every residue class; identical '
-             'Tableau, TableauSimulator and circuit<->tableau computations under the three widths.',
+             'Tableau, TableauSimulator and circuit<->tableau computations under the three widths. Sparse lower-triangular matrices with bits at and next to word boundaries are inverted.',
         note=TB + ' Only the 64x64 kernel is proved; the 128/256-bit inplace_transpose_square (intrinsics) and the other kernels are tied '
                   'by the differential sweep whose reference loops live in the harness.',
         design='§4 C20'),
@@ -218,7 +218,7 @@ CHECKS = {
              'REPEAT, TICKs) every location returned by ErrorMatcher::explain_errors_from_circuit is mapped through its stack frames '
              'to a position of the unrolled circuit; the reported Pauli product is injected there (or the reported measurement result '
              'is flipped as later feedback sees it) in Spec.srun and must flip exactly the error\'s detectors/observables; gate name, '
-             'target range and tick must identify that position; every error of the model (or filter) must have a location.',
+             'target range and tick must identify that position; every error of the model (or filter) must have a location. Caller-supplied filter models (subsets, separators, cancelling repeated targets) are used besides the circuit\'s own model.',
         note=TB + ' The matcher\'s bookkeeping is not modelled in Coq; reported coordinates are compared with the circuit\'s coordinate queries (C15).',
         design='§4 C18'),
     'C14': dict(
@@ -233,7 +233,7 @@ CHECKS = {
              'flow, generators are independent and span the complete flow basis read off the final Choi stabilizers; '
              'sample_if_circuit_has_stabilizer_flows and check_if_circuit_has_unsigned_stabilizer_flows agree with the oracle on '
              'generators, products, near misses (one Pauli/sign/measurement changed) and random flows; solve_for_flow_measurements '
-             'answers make the flow true and "no solution" only when none exists.',
+             'answers make the flow true and "no solution" only when none exists. Flows whose Pauli strings are longer or shorter than the circuit are queried; solve_for_flow_measurements must answer each flow the same alone and inside a batch.',
         note=TB + ' The flow solver is not modelled in Coq; obs[...] terms are not generated.',
         design='§4 C14'),
     'C13': dict(
@@ -249,7 +249,7 @@ CHECKS = {
              'decomposed/flattened/inverse/without_noise/without_tags/with_inlined_feedback/time_reversed_for_flows: original and result '
              'run on one Bell pair per qubit in Spec.srun with identical fault/sweep variables; (record, detectors, observables, final '
              'stabilizer signs) must be equal in distribution for every value of the shared variables (only detectors/observables for '
-             'inlined feedback); noise processes identical; structural demands per rewrite; reversed flows re-checked on the Choi state.',
+             'inlined feedback); noise processes identical; structural demands per rewrite; reversed flows re-checked on the Choi state. The simplifier\'s cutting of an instruction into pieces without repeated qubits is regenerated from source and is Segs.segs1 / segs2 (pieces concatenate to the instruction, none repeats a qubit).',
         note=TB + ' The rewriting code other than the decomposition tables is tied by the oracle only; coordinates are compared through the coordinate queries tied by C15.',
         design='§4 C13'),
     'C10': dict(
@@ -282,7 +282,7 @@ CHECKS = {
              '0.5, 0.51, 0.75, 0.9375, 1, ...}; hit statistics of sample_hit_indices; for every noise instruction the exact outcome pmf '
              'of a probe circuit (Bell-pair decoding of X and Z parts, heralds, flipped results) from Spec.srun + channel tables versus '
              'histograms of sample_batch_measurements, TableauSimulator, sample_batch_detection_events and DemSampler (against the pmf '
-             'of its model), all W, shot counts not multiples of 64; impossible outcomes must never occur.',
+             'of its model), all W, shot counts not multiples of 64; impossible outcomes must never occur. The arithmetic of biased_randomize_bits is translated to Q and the truncated part OR the correcting pass is proved to have exactly the requested probability (GenProofs_Brb, by field); PAULI_CHANNEL wrappers save and restore the enclosing chain state (tied from source); chains with other noise between their elements are sampled.',
         note=TB + ' Frequencies are tested, not proved: deviations below the stated resolution are invisible; std::geometric_distribution '
              'is assumed geometric.',
         design='§4 C05'),
